@@ -339,6 +339,10 @@ def load_known():
 def finish(ctx, level="model_checking", rule="", exhaustive=False):
     """Print KNOWN-FINDING / VIOLATION lines, write evidence, return exit code."""
     known = {(k["property"], k["key"]): k for k in load_known().get("findings", [])}
+    # ids starting with X are extensions of the specification beyond the listed properties (not in MANIFEST.json): their
+    # deviations are reported as DEVIATION lines and their evidence is kept apart from the properties' evidence
+    is_extra = ctx.pid.upper().startswith("X")
+    evdir = os.path.join(EVIDENCE_DIR, "extras") if is_extra else EVIDENCE_DIR
     by_key = {}
     for r in ctx.rejections:
         by_key.setdefault(r["key"], []).append(r)
@@ -357,7 +361,7 @@ def finish(ctx, level="model_checking", rule="", exhaustive=False):
         with open(path, "w") as f:
             json.dump({"property": ctx.pid, "key": key, "what": rs[0]["what"], "count": len(rs),
                        "cases": [r["record"] for r in rs[:5]]}, f, indent=1, default=str)
-        print(f"VIOLATION property={ctx.pid} replay={path}")
+        print(f"DEVIATION extra={ctx.pid} replay={path}" if is_extra else f"VIOLATION property={ctx.pid} replay={path}")
         print(f"  key={key} cases={len(rs)} what={rs[0]['what']}")
     cov = {
         "states": ctx.states,
@@ -383,8 +387,8 @@ def finish(ctx, level="model_checking", rule="", exhaustive=False):
         "wall_s": round(time.time() - ctx.t0, 1),
         "violations": nviol,
     }
-    os.makedirs(EVIDENCE_DIR, exist_ok=True)
-    with open(os.path.join(EVIDENCE_DIR, f"{ctx.pid}.json"), "w") as f:
+    os.makedirs(evdir, exist_ok=True)
+    with open(os.path.join(evdir, f"{ctx.pid}.json"), "w") as f:
         json.dump(ev, f, indent=1, default=str)
     print(f"{ctx.pid} tier={ctx.tier} seed={ctx.seed}: states={ctx.states} traces={ctx.traces} "
           f"evaluations={cov['evaluations']} violations={nviol} known={len(known_hit)} wall={ev['wall_s']}s")
